@@ -106,7 +106,7 @@ const c18Batches = 6 // input batches per scalar function
 func init() {
 	register(&Prop{
 		ID: "C18", Level: "exploration", DesignRef: "DESIGN.md section 4 C18",
-		Rule: "case 0: the registry, enumerated over all 256 type codes and a corpus of names (exhaustive over codes); cases 1..: one scalar " +
+		Rule: "case 0: the registry, enumerated over all 256 type codes and a corpus of names (exhaustive over codes), then 200 factories of their own extended by Register / RegisterModule in PRNG-chosen orders with look-ups in between; cases 1..: one scalar " +
 			"function x one sorted batch of inputs {0, breakpoints +-1, +-4, +-2.4621365, +-0.5 with 0..3 ulp offsets, +-2^k for k=-60..996, " +
 			"+-1e300, log-uniform random magnitudes in 1e-20..1e20 and 1e-300..1e300}: value against the independent closed form (1e-12), " +
 			"finiteness, documented range, monotonicity (4 ulp tolerance); last cases: module activations on vectors of length 1-8 with " +
@@ -117,7 +117,7 @@ func init() {
 			return 1 + len(refActs)*c18Batches + 8
 		},
 		Run:      runC18,
-		Required: []string{"registry.codes", "scalar.evaluations", "module.evaluations", "module.all_negative_below_minint64", "scalar.at_breakpoint"},
+		Required: []string{"registry.extensions", "registry.codes", "scalar.evaluations", "module.evaluations", "module.all_negative_below_minint64", "scalar.at_breakpoint"},
 	})
 }
 
@@ -164,6 +164,9 @@ func c18Inputs(r *rand.Rand, n int) []float64 {
 func runC18(c *Ctx, idx int) {
 	if idx == 0 {
 		c18Registry(c)
+		if !c.Violated() {
+			c18RegistryExtension(c)
+		}
 		return
 	}
 	scalarCases := len(refActs) * c18Batches
@@ -398,4 +401,74 @@ func c18Registry(c *Ctx) {
 		}
 	}
 	c.Sample(map[string]interface{}{"registered_codes": registered, "codes_enumerated": 256, "names": len(names)})
+}
+
+// c18RegistryExtension registers further activators on factories of their own (never the global one) in PRNG-chosen
+// orders, with look-ups in between: after every step names and type codes must map one-to-one in both directions for
+// everything registered so far, and what is not registered must yield an error.
+func c18RegistryExtension(c *Ctx) {
+	r := c.G
+	for round := 0; round < 200 && !c.Violated(); round++ {
+		f := neatmath.NewNodeActivatorsFactory()
+		known := map[neatmath.NodeActivationType]string{}
+		kinds := map[neatmath.NodeActivationType]bool{} // true - module
+		for t, ra := range refActByType {
+			known[t] = ra.name
+		}
+		for t, n := range refModuleNames {
+			known[t] = n
+			kinds[t] = true
+		}
+		verify := func(after string) bool {
+			for t, name := range known {
+				c.Eval(2)
+				got, err := f.ActivationNameFromType(t)
+				back, err2 := f.ActivationTypeFromName(name)
+				if err != nil || got != name || err2 != nil || back != t {
+					c.Violate("registry-extension", map[string]interface{}{"key": "extension", "after": after},
+						"after %s: code %d -> (%q, %v), name %q -> (%d, %v): names and codes do not map one-to-one", after, t, got, err, name, back, err2)
+					return false
+				}
+				_, errS := f.ActivateByType(0.5, nil, t)
+				_, errM := f.ActivateModuleByType([]float64{0.5, 2}, nil, t)
+				if kinds[t] && (errS == nil || errM != nil) || !kinds[t] && (errS != nil || errM == nil) {
+					c.Violate("registry-extension", map[string]interface{}{"key": "extension", "after": after}, "after %s: %q answers as the wrong kind of activator (%v / %v)", after, name, errS, errM)
+					return false
+				}
+			}
+			for _, bad := range []string{"NoSuchActivation", "", "sigmoidplainactivation"} {
+				if _, err := f.ActivationTypeFromName(bad); err == nil {
+					c.Violate("registry-extension", map[string]interface{}{"key": "extension", "after": after}, "after %s: unknown name %q resolves to a type", after, bad)
+					return false
+				}
+			}
+			return true
+		}
+		if r.Intn(2) == 0 && !verify("construction") {
+			return
+		}
+		next := neatmath.NodeActivationType(60 + r.Intn(20))
+		for step := 0; step < 1+r.Intn(5); step++ {
+			name := fmt.Sprintf("Custom%dActivation", next)
+			what := ""
+			if r.Intn(2) == 0 {
+				f.Register(next, func(x float64, _ []float64) float64 { return x * 2 }, name)
+				what = "Register(" + name + ")"
+			} else {
+				f.RegisterModule(next, func(in []float64, _ []float64) []float64 { return []float64{float64(len(in))} }, name)
+				kinds[next] = true
+				what = "RegisterModule(" + name + ")"
+			}
+			known[next] = name
+			next++
+			c.Count("registry.extensions", 1)
+			// sometimes two registrations follow each other without a look-up in between
+			if r.Intn(3) != 0 && !verify(what) {
+				return
+			}
+		}
+		if !verify("the last registration") {
+			return
+		}
+	}
 }
